@@ -31,7 +31,7 @@ var c24Stmts = []string{
 	`echo "hello"`, `x := 1`, `println x, "a;b"`, `a, b = b, a`, "if x > 0 {\n\techo x\n}", "for i <- :3 {\n\tif i == 1 {\n\t\tcontinue\n\t}\n\techo i\n}",
 	"func() {\n\techo \"lit\"\n}()", "func(a int) {\n\t_ = a\n}(1)", "go func() {}()", "defer func() { echo 1 }()", "y := []int{\n\t1,\n\t2,\n}", "f(\n\t1,\n\t2,\n)",
 	"m := {\"a\": 1, \"}\": 2}", "s := \"}{)(\"", "z := `raw }\n{ text`", "switch x {\ncase 1:\n\techo 1\ndefault:\n}", "L:\nfor {\n\tbreak L\n}", "x++", `t := T{a: 1}`, "h := x => x * 2",
-	"q := [i*2 for i <- :3]", `v := func(a int) int { return a }(2)`, "w := (1 +\n\t2)", "arr[(1)] = f(g(1))[0]", "echo f(1)!", "r := ';'",
+	"q := [i*2 for i <- :3]", "func(n int) /* c */ {\n\t_ = n\n}(1)", "func() /* c */ { echo 1 }()", "func /* c */ (n int) {\n}(2)", `v := func(a int) int { return a }(2)`, "w := (1 +\n\t2)", "arr[(1)] = f(g(1))[0]", "echo f(1)!", "r := ';'",
 }
 var c24Decls = []string{
 	"var g1 = 1", "var (\n\tg2 = 1\n\tg3 = \")\"\n)", "const c1 = 2", "type T struct {\n\ta int\n}", "type (\n\tU int\n\tV = string\n)", "const (\n\tA = iota\n\tB\n)", "var g4 int", "import \"fmt\"",
@@ -40,7 +40,7 @@ var c24Decls = []string{
 var c24Funcs = []string{
 	"func f1() {\n\techo 1\n}", "func f2(a, b int) int {\n\treturn a + b\n}", "func (t T) M1() {\n}", "func (t *T) M2(a int) (int, error) {\n\tif a > 0 {\n\t\treturn a, nil\n\t}\n\treturn 0, nil\n}",
 	"func f3() (r int) {\n\tdefer func() { r++ }()\n\treturn\n}", "func f4(cb func(int) int) {\n\tcb(1)\n}", "func f5() { s := \"}\"; _ = s }", "func f6(xs ...int) []int {\n\treturn [x for x <- xs]\n}",
-	"func (T) M3() string {\n\treturn \"{\"\n}", "func f7() {\n\t/* } */\n\t// {\n}",
+	"func (T) M3() string {\n\treturn \"{\"\n}", "func /* c */ f8() {\n}", "func (t T) /* c */ M4() /* d */ {\n}", "func f9( /* c */ ) /* d */ {\n}", "func f7() {\n\t/* } */\n\t// {\n}",
 }
 var c24Comments = []string{"// c", "/* b */", "// func x() {", "/* {\n( */", "# sharp"}
 
